@@ -288,6 +288,125 @@ class Scratch:
     def path(self, i):
         return self.paths[i % len(self.paths)]
 
+    # ---- the wider path vocabulary (seed C06-f): a second tree, so that the path strings of the first stay what they were
+    WIDE_ROOT = '/tmp/match-c06-paths1'
+
+    def build_wide(self):
+        """a/sub/{x,y}  a/file ('hello\n', 0644)  a/t.tar      b/file ('abc', 0600)  b/real/
+        b/link -> ../a/sub   (a directory ELSEWHERE: b/link/.. is a, not b)      b/flink -> ../a/file   b/tlink -> ../a/t.tar
+        b/abs -> <root>/a    dlink -> a    dangling -> nowhere    loop1 -> loop2 -> loop1"""
+        final = self.WIDE_ROOT
+        if os.path.lexists(os.path.join(final, 'loop2')):
+            return
+        root = tempfile.mkdtemp(prefix='match-c06-build-')
+        p = lambda *a: os.path.join(root, *a)
+        os.makedirs(p('a', 'sub'))
+        os.makedirs(p('b', 'real'))
+        for name in ('x', 'y'):
+            open(p('a', 'sub', name), 'w').write(name)
+        open(p('a', 'file'), 'w').write('hello\n')
+        os.chmod(p('a', 'file'), 0o644)
+        open(p('b', 'file'), 'w').write('abc')
+        os.chmod(p('b', 'file'), 0o600)
+        with tarfile.open(p('a', 't.tar'), 'w') as t:
+            t.add(p('a', 'file'), 'file')
+            t.add(p('b', 'file'), 'other')
+        os.symlink(os.path.join('..', 'a', 'sub'), p('b', 'link'))
+        os.symlink(os.path.join('..', 'a', 'file'), p('b', 'flink'))
+        os.symlink(os.path.join('..', 'a', 't.tar'), p('b', 'tlink'))
+        os.symlink(os.path.join(final, 'a'), p('b', 'abs'))
+        os.symlink('a', p('dlink'))
+        os.symlink('nowhere', p('dangling'))
+        os.symlink('loop2', p('loop1'))
+        os.symlink('loop1', p('loop2'))      # last: its presence says that the tree is complete
+        import shutil
+        try:
+            os.rename(root, final)
+        except OSError:
+            shutil.rmtree(root, True)
+
+    def wide_paths(self):
+        """APPEND ONLY (indices are used by catalog rows and by the C07 tables).  Spellings of paths of the second tree:
+        through a symlink to a directory elsewhere and `..`, symlinks to files / directories / a tarball, `.` segments, doubled
+        and trailing slashes, relative spellings (enough `..` to reach / from any working directory), `..` after a real
+        directory, an absolute link, a dangling link, a link loop, `..` after something that does not exist."""
+        if getattr(self, '_wide', None) is None:
+            self.build_wide()
+            W = self.WIDE_ROOT
+            rel = '../' * 24 + W.lstrip('/')
+            self._wide = [W + x for x in (
+                '/b/link/../file', '/a/file', '/b/file', '/b/flink', '/b/link', '/b/link/..', '/a', '/b',                    # 0..7
+                '/a/./file', '//a//file', '/a/sub/', '/a/file/', '/b/real/../file', '/b/abs/file', '/dlink/file',             # 8..14
+                '/b/tlink', '/b/link/../t.tar', '/a/t.tar', '/dangling', '/loop1', '/loop2', '/nothing/../a/file',           # 15..21
+                '/b/link/../sub', '/b/link/../../b/file', '/a/sub/../../b/link/x', '/b/./link/.././/file', '/nothing',       # 22..26
+                '/b/link/', '/dlink/sub/..', '/loop1/../a/file')] + [                                                         # 27..29
+                rel + '/a/file', rel + '/b/link/../file', rel + '/b/file', './' + rel + '/b/flink']                           # 30..33
+        return self._wide
+
+    def all_paths(self):
+        return self.paths + self.wide_paths()
+
+
+def canon_path(path):
+    """where a path leads, found by walking it component by component (os.lstat / os.readlink; a link is followed before the
+    next component is read, so `link/..` is the parent of the link's TARGET).  A component that does not exist (or a link
+    loop) ends the walk: the rest is appended textually (`..` then removes the component before it)."""
+    path = os.fspath(path)
+    if isinstance(path, bytes):
+        path = os.fsdecode(path)
+    todo = [c for c in (os.getcwd() + '/' + path if not path.startswith('/') else path).split('/') if c not in ('', '.')]
+    done, hops = [], 0
+    while todo:
+        c = todo.pop(0)
+        if c == '..':
+            if done:
+                done.pop()
+            continue
+        here = '/' + '/'.join(done + [c])
+        try:
+            is_link = stat.S_ISLNK(os.lstat(here).st_mode)
+        except OSError:
+            is_link = False
+        if not is_link:
+            done.append(c)
+            continue
+        hops += 1
+        if hops > 40 or _loops(here):
+            done.append(c)       # a loop: the link stays as it is spelled
+            continue
+        target = os.readlink(here)
+        parts = [x for x in target.split('/') if x not in ('', '.')]
+        if target.startswith('/'):
+            done = []
+        todo = parts + todo
+    return '/' + '/'.join(done)
+
+
+def _loops(link):
+    """does following `link` come back to a link already being followed?"""
+    seen, here = set(), link
+    for _ in range(64):
+        if here in seen:
+            return True
+        seen.add(here)
+        try:
+            if not stat.S_ISLNK(os.lstat(here).st_mode):
+                return False
+            here = os.path.normpath(os.path.join(os.path.dirname(here), os.readlink(here)))
+        except OSError:
+            return False
+    return True
+
+
+def same_path(a, b):
+    """the documented predicate of SamePath - "the paths are equal, or they point to the same file but in different ways":
+    two paths that exist are the same when the operating system says so (os.path.samefile: same device and inode); when one
+    of them does not exist there is no file to compare, and the paths are the same when they lead to the same place
+    (canon_path).  Independent of os.path.realpath / abspath."""
+    if os.path.exists(a) and os.path.exists(b):
+        return os.path.samefile(a, b)
+    return canon_path(a) == canon_path(b)
+
 
 def _pred_even(x):
     return x % 2 == 0
@@ -321,9 +440,6 @@ def catalog():
     def perms(p):
         return '%04o' % stat.S_IMODE(os.stat(p).st_mode)
 
-    def real(p):
-        return os.path.abspath(os.path.realpath(p))
-
     def tar_names(p):
         with open(p, 'rb') as f:
             with tarfile.open(p, fileobj=f) as t:
@@ -345,7 +461,7 @@ def catalog():
         ('DirContains', lambda: M.DirContains(['y', 'x']), lambda v: os.path.isdir(v) and sorted(os.listdir(v)) == ['x', 'y']),
         ('DirContains', lambda: M.DirContains(matcher=M.HasLength(0)), lambda v: os.path.isdir(v) and len(os.listdir(v)) == 0),
         ('HasPermissions', lambda: M.HasPermissions('0644'), lambda v: perms(v) == '0644'),
-        ('SamePath', lambda: M.SamePath(P(2)), lambda v: real(v) == real(P(2))),
+        ('SamePath', lambda: M.SamePath(P(2)), lambda v: same_path(v, P(2))),
         ('TarballContains', lambda: M.TarballContains(['other', 'file']), lambda v: tar_names(v) == ['file', 'other']),
         ('Warnings', lambda: M.Warnings(), lambda v: len(warns(v)) > 0),
         ('IsDeprecated', lambda: M.IsDeprecated(M.Contains('old')),
@@ -369,8 +485,11 @@ def catalog():
         ('TarballContains', lambda: M.TarballContains(frozenset(['file'])), lambda v: tar_names(v) == ['file']),
         ('DirContains', lambda: M.DirContains(('x', 'y')), lambda v: os.path.isdir(v) and sorted(os.listdir(v)) == ['x', 'y']),
         ('DirContains', lambda: M.DirContains(set()), lambda v: os.path.isdir(v) and os.listdir(v) == []),
-        ('SamePath', lambda: M.SamePath(P(4)), lambda v: real(v) == real(P(4))),
+        ('SamePath', lambda: M.SamePath(P(4)), lambda v: same_path(v, P(4))),
     ]
+    # 32..: SamePath on the spellings of the second tree (seed C06-f)
+    WP = S.wide_paths()
+    C += [('SamePath', lambda i=i: M.SamePath(WP[i]), lambda v, i=i: same_path(v, WP[i])) for i in SAMEPATH_WIDE]
     return C
 
 
@@ -398,8 +517,12 @@ def pred_msg(pred_id, kind):
     return PRED_MSG[kind]
 
 
+# catalog rows 32.. are SamePath(<wide_paths()[i]>) for these i (APPEND ONLY)
+SAMEPATH_WIDE = [0, 1, 2, 5, 6, 30, 31, 19, 18, 21, 4, 9]
+SAMEPATH_ROWS = [13, 31] + list(range(32, 32 + len(SAMEPATH_WIDE)))
+
 # which kind of matchee each catalog row is meant for (generator hint only)
-OPQ_FOR = {'str': [0, 1, 3, 4, 20, 21], 'bytes': [2], 'path': list(range(5, 15)) + [12, 22, 22, 23, 23, 24, 25, 26] + list(range(27, 32)),
+OPQ_FOR = {'str': [0, 1, 3, 4, 20, 21], 'bytes': [2], 'path': list(range(5, 15)) + [12, 22, 22, 23, 23, 24, 25, 26] + list(range(27, 32 + len(SAMEPATH_WIDE))),
            'fn': [15, 16, 17], 'int': [18, 19]}
 
 
@@ -437,7 +560,7 @@ class C06(Prop):
     budgets = {'quick': 50000, 'thorough': 1200000}
     time_limit = {'quick': 40, 'thorough': 480}
     rule = ('value-directed random matcher expressions (depth 0-4) over all stock matchers of testtools.matchers.__all__ x matchees '
-            'from ints, strs, bytes, None, lists, tuples, dicts (keys of several, mutually unorderable types), objects with attributes, exc_info tuples, callables, scratch-dir paths '
+            'from ints, strs, bytes, None, lists, tuples, dicts (keys of several, mutually unorderable types), objects with attributes, exc_info tuples, callables, scratch-dir paths (plain, and spelled through symlinked directories / `..` / relative / dangling / looping) '
             '(MatchesPredicate leaves with well- and ill-formed messages included); '
             '~10% deliberately ill-typed; MatchesSetwise nodes carry two forced set-iteration orders. thorough adds every '
             'combinator over <=2 leaves of a 9-leaf alphabet x 8 values. non-trivial = a combinator at the root and the '
@@ -450,6 +573,8 @@ class C06(Prop):
         'the files of the scratch directory contain no CR: FileContains reads in text mode with universal newlines, so a file containing \\r\\n or \\r is compared after translation to \\n (it never matches its own contents) - recorded, not repaired (open(path, newline="") would change what CRLF files written on Windows match)',
         'build B of every expression shares one Python object between equal sub-terms (MatchesSetwise(one, one), MatchesAll(m, m), ...): verdicts must not depend on sharing; values outside a leaf matcher\'s domain raise rather than mismatch (modelled: the propagated class)',
         'the scratch directory of the filesystem leaves holds a setuid file (4755), a setgid file (2644), a sticky directory (1777) besides plain modes; the permission oracle is stat.S_IMODE read back from the path',
+        'paths: besides the first scratch tree a second one (/tmp/match-c06-paths1) reached through symbolic links to files, to a tarball and to DIRECTORIES that live elsewhere (b/link -> ../a/sub, so that b/link/.. is a, not b), `.` segments, doubled and trailing slashes, relative spellings, `..` after real directories, an absolute link, a dangling link, a link loop, `..` after a name that does not exist; every filesystem leaf meets them',
+        'SamePath oracle = the documented predicate ("equal, or point to the same file in different ways"): os.path.samefile when both paths exist; when one of them does not exist (nothing to compare: dangling link, loop, missing name, `file/`) the paths are the same iff a component-by-component walk (os.lstat / os.readlink, links followed before the next component is read, the part after the first missing component taken textually) ends at the same place - this is what the unchanged code answers on all 46 x 46 pairs of the vocabulary',
         'the two builds of an expression differ in the iteration order of set(<matchers of a MatchesSetwise>), forced by re-allocating the matcher objects until list(set(..)) has the order given in the input (the verdict must not depend on it)',
         'MatchesSetwise asks every matcher about every value once, value by value (the first exception propagates); the pairing algorithm itself is abstracted to its outcome',
         'the class of an exception propagating out of an expression that contains a dict matcher is compared as Any (set-of-str iteration order is randomised per process; non-dict matchees make the three parts raise different classes)',
@@ -957,9 +1082,10 @@ PERM_ROWS = [12, 22, 23, 24, 25, 26]
 
 def fs_case(r):
     """a filesystem matcher (permission expectations with and without the setuid/setgid/sticky digit twice as likely)
-    on a path of the scratch directory (paths with special mode bits twice as likely), alone or under a combinator"""
+    on a path of the scratch directories (half: the wide spellings of the second tree; else the first tree, paths with
+    special mode bits twice as likely), alone or under a combinator"""
     S = Scratch.get()
-    path = lambda: ['s'] + [ord(c) for c in S.path(r.choice(list(range(len(S.paths))) + [8, 9, 10, 11]))]
+    path = lambda: ['s'] + [ord(c) for c in (r.choice(S.wide_paths()) if r.random() < 0.5 else S.path(r.choice(list(range(len(S.paths))) + [8, 9, 10, 11])))]
     row = lambda: ['opq', r.choice(OPQ_FOR['path'] + PERM_ROWS)]
     v = path()
     x = r.random()
@@ -1152,7 +1278,7 @@ class Gen:
     def str_(self):
         r = self.r
         if r.random() < 0.25:
-            return ['s'] + [ord(c) for c in Scratch.get().path(r.randrange(len(Scratch.get().paths)))]
+            return ['s'] + [ord(c) for c in r.choice(Scratch.get().all_paths())]
         return ['s'] + [r.choice([97, 97, 98, 98, 99, 10, 233]) for _ in range(r.choice([0, 1, 1, 2, 2, 3, 4]))]
 
     def bytes_(self):
